@@ -361,6 +361,32 @@ def native_checks():
                 continue
             if got != exp:
                 fail("applicability-cid", "CID row 'D,%s,..' under format %s: accepted=%s, documented=%s" % (name, fmt, got, exp), text=text)
+    # a value means the same whether it is set directly or written in a CID row (values keep their case)
+    mixed = [("delimited", "quote_character", "'"), ("delimited", "escape_character", "\\"), ("delimited", "encoding", "UTF-8"),
+             ("delimited", "line_delimiter", "CRLF"), ("delimited", "item_delimiter", "X"), ("delimited", "item_delimiter", "'Q'"),
+             ("delimited", "item_delimiter", "TAB"), ("delimited", "item_delimiter", "0X3B"), ("delimited", "allowed_characters", "'A'...'Z'"),
+             ("delimited", "allowed_characters", "0X41...0X5A, 'a'"), ("fixed", "allowed_characters", '"A"...'), ("delimited", "decimal_separator", ","),
+             ("delimited", "thousands_separator", "'"), ("excel", "sheet", "2"), ("delimited", "skip_initial_space", "TRUE"),
+             ("delimited", "header", "0X2"), ("delimited", "quote_character", "'\\x7C'"), ("delimited", "item_delimiter", "'\\U0000007c'")]
+    for fmt, name, value in mixed:
+        n += 1
+        try:
+            df = data.DataFormat(fmt)
+            df.set_property(name, value)
+            direct = getattr(df, name)
+            direct = direct.items if hasattr(direct, "items") else direct
+        except Exception as e:  # noqa
+            direct = "%s" % type(e).__name__
+        try:
+            c = interface.Cid()
+            c.read("<native>", [["d", "format", fmt], ["d", name.replace("_", " "), value], ["f", "x", "", "", "3" if fmt == "fixed" else ""]])
+            through = getattr(c.data_format, name)
+            through = through.items if hasattr(through, "items") else through
+        except Exception as e:  # noqa
+            through = "%s" % type(e).__name__
+        if direct != through:
+            fail("cid-row-value", "property %r = %r under %s: set directly -> %r, through a CID row -> %r" % (name, value, fmt, direct, through),
+                 name=name, value=value)
     # spellings of the item delimiter
     pool = list(range(33, 127)) + [9, 167, 8364]
     names_map = {9: "tab", 10: "lf", 13: "cr", 12: "ff", 11: "vt"}
@@ -391,8 +417,17 @@ def native_checks():
                 got = df.item_delimiter
             except Exception as e:  # noqa
                 got = "%s: %s" % (type(e).__name__, e)
+            # ... and the same spelling written in a CID row
+            try:
+                c = interface.Cid()
+                c.read("<native>", [["d", "format", "delimited"], ["D", "Item Delimiter", sp], ["f", "x"]])
+                got_cid = c.data_format.item_delimiter
+            except Exception as e:  # noqa
+                got_cid = "%s: %s" % (type(e).__name__, e)
             if got != ch:
                 fail("item-delimiter-spelling", "item delimiter %r (code %d) -> %r, expected %r" % (sp, code, got, ch), spelling=sp)
+            elif got_cid != ch:
+                fail("item-delimiter-spelling", "item delimiter %r (code %d) in a CID row -> %r, expected %r" % (sp, code, got_cid, ch), spelling=sp)
             elif len(samples) < 2:
                 samples.append(dict(query="native/spelling", spelling=sp, character=ch))
     for bad in ["", "  ", "ab", "'ab'", "1 2", "tab tab", "0", "'\\x00'", "nosuchname", "1.5", "((", "'a"]:
